@@ -11,14 +11,23 @@ token: the letter `x` followed by the code points in lower-case hex separated by
   dregex <i> <xstr>                   DURATION_REGEXES[i].search: none | match unit=<xstr> ...
   f64    <n>                          float("<digits>") of a natural number, as an integer
 
-Oracle-only streams (model = False, "observed, not proved"): `dfloat` (decimal hours / minutes /
-seconds: Duration -> text -> Duration, judged with exact Fractions and the float repr law) and
-`dfparse` (decimal designator strings with comma or point, decimal alternative spellings).
+Oracle-only streams (model = False, "observed, not proved"): `drteq` (the library's own == / !=
+between parse(str(d)) and d: Python evaluates the length in binary64 once a slot is a float, which
+the integer model does not follow), `dfloat` (decimal hours / minutes / seconds: Duration -> text ->
+Duration, judged with the float repr law) and `dfparse` (decimal designator strings with comma or
+point, judged with exact Fractions; decimal / reduced / zoned alternative spellings).
 
 `outside` is what the Lean model answers where it makes no claim (decimal or otherwise non-digit
-float text, non-ASCII input, alternative spellings other than the four complete forms, digit
-strings that overflow binary64); `model_domain` below mirrors that rule on the Python side so the
-two can be compared on everything else.
+float text that float() might accept, non-ASCII input, alternative spellings other than the four
+complete forms whose date part could be a date expression, digit strings that overflow binary64);
+`model_domain` below mirrors that rule on the Python side (with the live regexes through `re`) so
+the two can be compared on everything else, including the malformed stream: ISO8601SyntaxError is
+`syntax`, the ValueError of float() / of the two-T unpacking is `value`.
+
+The oracles judge the property's own clauses independently of the model: `exp_text` (what the
+designators prescribe for an integer duration), `decode_strict` (a hand-written scanner for the
+strict designator grammar; no regex), `sem` (what Duration equality looks at), the alternative
+spelling's fields as generated, "a leading '-' negates every field".
 """
 import re
 import json
@@ -618,7 +627,7 @@ class DStr(Op):
     shard = None
 
     def gen(self, rng, tier, boost):
-        n = 4000 * boost if tier == "quick" else 12000 * boost
+        n = 4000 * boost if tier == "quick" else 40000 * boost
         for _ in range(n):
             yield (rng.randrange(2),) + gen_intdur(rng, mixed=rng.random() < 0.4, allow_unrepr=True)
 
@@ -655,7 +664,7 @@ class DRoundTrip(Op):
             pats = [p for k, p in enumerate(pats) if k % 3 == off or p[0] == "W"]
         for k, d in enumerate(gens.shard_filter(pats, self.shard)):
             yield (MODES[k % 4], k % 2) + d
-        n = 6000 * boost if tier == "quick" else 15000 * boost
+        n = 6000 * boost if tier == "quick" else 50000 * boost
         for _ in range(n):
             yield (gens.mode(rng), rng.randrange(2)) + gen_intdur(
                 rng, allow_unrepr=unrepr, exact_only=self.exact_only and not unrepr)
@@ -730,7 +739,7 @@ class DParse(Op):
     def gen(self, rng, tier, boost):
         for k, s in enumerate(gens.shard_filter(HAND_STRINGS, self.shard)):
             yield ("greg", s, "")
-        n = 8000 * boost if tier == "quick" else 20000 * boost
+        n = 8000 * boost if tier == "quick" else 80000 * boost
         for _ in range(n):
             text, want = gen_designator(rng)
             yield (gens.mode(rng), text, want)
@@ -740,6 +749,8 @@ class DParse(Op):
                 base = gen_designator(rng)[0]
             elif r < 0.8:
                 base = alt_texts(*gen_alt(rng))[0]
+                if rng.random() < 0.3:
+                    yield (gens.mode(rng), "-" + base, "")
             elif r < 0.9:
                 base = exp_text(gen_intdur(rng, mixed=True, allow_unrepr=True))
             else:
@@ -768,6 +779,13 @@ class DParse(Op):
                 exp = ("U", 0, 0, 0, 0, 0, 0)
             if out != canon_expected(exp):
                 return "parse(%r) gave %s, its designators say %s" % (text, out, canon_expected(exp))
+        got = canon_to_tuple(out)
+        if text.startswith("-") and got is not None:
+            # the leading '-' negates all: whatever the rest denotes, this is its negation
+            rest = canon_to_tuple(parse_outcome(text[1:]))
+            if rest is not None and (got[0] != rest[0] or tuple(got[1:]) != tuple(-v for v in rest[1:])):
+                return "parse(%r) gave %s, but parse(%r) gives %s: the leading '-' must negate every field" % (
+                    text, out, text[1:], " ".join(str(x) for x in rest))
 
     def label(self, a):
         text = a[1]
@@ -793,7 +811,7 @@ class DAlt(Op):
     shard = None
 
     def gen(self, rng, tier, boost):
-        n = 4000 * boost if tier == "quick" else 12000 * boost
+        n = 4000 * boost if tier == "quick" else 40000 * boost
         for _ in range(n):
             yield (gens.mode(rng),) + gen_alt(rng)
         if tier != "quick":
@@ -858,7 +876,7 @@ class DRegex(Op):
                 yield (i, s)
                 if s.startswith("-"):
                     yield (i, s[1:])
-        n = 6000 * boost if tier == "quick" else 15000 * boost
+        n = 6000 * boost if tier == "quick" else 60000 * boost
         for _ in range(n):
             r = rng.random()
             if r < 0.45:
@@ -960,7 +978,7 @@ class DFloat(Op):
     model = False
 
     def gen(self, rng, tier, boost):
-        n = 4000 * boost if tier == "quick" else 10000 * boost
+        n = 4000 * boost if tier == "quick" else 40000 * boost
         for _ in range(n):
             neg = rng.random() < 0.35
             comps = []
@@ -1031,7 +1049,7 @@ class DFParse(Op):
     model = False
 
     def gen(self, rng, tier, boost):
-        n = 3000 * boost if tier == "quick" else 8000 * boost
+        n = 3000 * boost if tier == "quick" else 30000 * boost
         for _ in range(n):
             r = rng.random()
             if r < 0.7:
